@@ -12,11 +12,12 @@ pub mod c11;
 pub mod c12;
 pub mod c13;
 pub mod c14;
+pub mod c15;
 
 use crate::framework::Spec;
 
 pub fn all() -> Vec<&'static Spec> {
-    vec![&c01::SPEC, &c02::SPEC, &c02::SPEC_C07, &c10::SPEC, &c03::SPEC, &c04::SPEC, &c09::SPEC, &c13::SPEC, &c12::SPEC, &c08::SPEC, &c11::SPEC, &c05::SPEC, &c06::SPEC, &c14::SPEC]
+    vec![&c01::SPEC, &c02::SPEC, &c02::SPEC_C07, &c10::SPEC, &c03::SPEC, &c04::SPEC, &c09::SPEC, &c13::SPEC, &c12::SPEC, &c08::SPEC, &c11::SPEC, &c05::SPEC, &c06::SPEC, &c14::SPEC, &c15::SPEC]
 }
 
 pub fn find(id: &str) -> Option<&'static Spec> {
